@@ -54,8 +54,8 @@ var ks4, ks7, ks10, ks13 = tu.Testing4SharesSet(), tu.Testing7SharesSet(), tu.Te
 
 // Submission is one Submit* call on the beacon node.
 type Submission struct {
-	Call   string           // SubmitAttestation, SubmitBeaconBlock, ...
-	Obj    ssz.HashRoot     // the duty object the signature is over
+	Call   string       // SubmitAttestation, SubmitBeaconBlock, ...
+	Obj    ssz.HashRoot // the duty object the signature is over
 	Domain phase0.DomainType
 	Sig    phase0.BLSSignature
 	Note   string
